@@ -591,6 +591,8 @@ class Registry:
             return X.MATH[name](I, *args, **kwargs)
         if head == "torch" and name in X.TORCH:
             return X.TORCH[name](I, *args, **kwargs)
+        if dotted in X.TORCH_DOTTED:
+            return X.TORCH_DOTTED[dotted](I, *args, **kwargs)
         if head == "builtins" and name.endswith(("Error", "Exception")):
             return Opaque(f"exc:{name}")
         if dotted.startswith(X.NOEFFECT_PREFIXES):
